@@ -44,3 +44,107 @@ theorem det_pivPerm_matrix {R : Type} [CommRing R] (piv : Fin N → Fin N) :
   rw [Matrix.det_permutation, sign_pivPerm]
 
 end AV
+
+/-! ## the list-level loop of `utils.piv2mat` computes the pivot permutation -/
+namespace AV
+open Equiv
+
+theorem getD_set_set (sw : List Nat) (i p j : Nat) (hi : i < sw.length) (hp : p < sw.length) :
+    ((sw.set i (sw.getD p 0)).set p (sw.getD i 0)).getD j 0
+      = sw.getD (if j = i then p else if j = p then i else j) 0 := by
+  simp only [List.getD_eq_getElem?_getD, List.getElem?_set, List.length_set]
+  by_cases hjp : p = j
+  · subst hjp
+    by_cases hji : p = i
+    · subst hji; simp [hi]
+    · simp [hp, hji]
+  · by_cases hji : i = j
+    · subst hji
+      have : ¬ (i = p) := fun e => hjp e.symm
+      simp [hjp, hi, this]
+    · have h1 : ¬ (j = i) := fun e => hji e.symm
+      have h2 : ¬ (j = p) := fun e => hjp e.symm
+      simp [hjp, hji, h1, h2]
+
+theorem swap_val {N : ℕ} (a b j : Fin N) :
+    (swap a b j).val = if j.val = a.val then b.val else if j.val = b.val then a.val else j.val := by
+  rw [Equiv.swap_apply_def]
+  by_cases h1 : j = a
+  · subst h1; simp
+  · by_cases h2 : j = b
+    · subst h2
+      have : ¬ (j.val = a.val) := fun e => h1 (Fin.ext e)
+      simp [h1, this]
+    · have e1 : ¬ (j.val = a.val) := fun e => h1 (Fin.ext e)
+      have e2 : ¬ (j.val = b.val) := fun e => h2 (Fin.ext e)
+      simp [h1, h2, e1, e2]
+
+/-- state of the loop after `k` iterations -/
+theorem pivSwap_loop {N : ℕ} (piv : Fin N → Fin N) (k : ℕ) (hk : k ≤ N) :
+    let pl := List.ofFn fun i => (piv i).val
+    let sw := (List.range k).foldl (fun sw i =>
+        let a := sw.getD i 0
+        let b := sw.getD (pl.getD i 0) 0
+        (sw.set i b).set (pl.getD i 0) a) (List.range N)
+    sw.length = N ∧ ∀ j : Fin N,
+      sw.getD j.val 0 = ((((List.finRange N).take k).map fun i => swap i (piv i)).prod j).val := by
+  induction k with
+  | zero =>
+    simp only [List.range_zero, List.foldl_nil, List.take_zero, List.map_nil, List.prod_nil, Perm.coe_one, id_eq]
+    refine ⟨by simp, fun j => ?_⟩
+    rw [List.getD_eq_getElem?_getD, List.getElem?_range j.isLt]; rfl
+  | succ k ih =>
+    intro pl sw
+    have hkN : k < N := by omega
+    obtain ⟨hlen, hval⟩ := ih (by omega)
+    simp only at hlen hval
+    have hpl : pl.getD k 0 = (piv ⟨k, hkN⟩).val := by
+      simp only [pl, List.getD_eq_getElem?_getD, List.getElem?_ofFn, hkN, dif_pos]; rfl
+    have hsw : sw = (fun sw i =>
+        let a := sw.getD i 0
+        let b := sw.getD (pl.getD i 0) 0
+        (sw.set i b).set (pl.getD i 0) a)
+        ((List.range k).foldl (fun sw i =>
+          let a := sw.getD i 0
+          let b := sw.getD (pl.getD i 0) 0
+          (sw.set i b).set (pl.getD i 0) a) (List.range N)) k := by
+      simp only [sw, List.range_succ, List.foldl_append, List.foldl_cons, List.foldl_nil]
+    set sw0 := (List.range k).foldl (fun sw i =>
+          let a := sw.getD i 0
+          let b := sw.getD (pl.getD i 0) 0
+          (sw.set i b).set (pl.getD i 0) a) (List.range N) with hsw0
+    have htake : (List.finRange N).take (k + 1) = (List.finRange N).take k ++ [⟨k, hkN⟩] := by
+      rw [List.take_add_one]
+      congr 1
+      have hk' : k < (List.finRange N).length := by simp [hkN]
+      rw [List.getElem?_eq_getElem hk', List.getElem_finRange]
+      rfl
+    rw [hsw]
+    simp only
+    refine ⟨by simp [hlen], fun j => ?_⟩
+    rw [hpl, getD_set_set sw0 k (piv ⟨k, hkN⟩).val j.val (by rw [hlen]; exact hkN) (by rw [hlen]; exact (piv ⟨k, hkN⟩).isLt),
+      htake, List.map_append, List.prod_append]
+    simp only [List.map_cons, List.map_nil, List.prod_cons, List.prod_nil, mul_one, Perm.coe_mul, Function.comp_apply]
+    have hs := swap_val ⟨k, hkN⟩ (piv ⟨k, hkN⟩) j
+    simp only at hs
+    rw [← hval (swap ⟨k, hkN⟩ (piv ⟨k, hkN⟩) j), hs]
+
+/-- **`utils.piv2mat`'s index vector is the pivot permutation**: `swap[j] = (τ₀ τ₁ … τ_{N-1})(j)` -/
+theorem pivSwap_eq_pivPerm {N : ℕ} (piv : Fin N → Fin N) :
+    pivSwap (List.ofFn fun i => (piv i).val) = List.ofFn fun j => (pivPerm piv j).val := by
+  have h := pivSwap_loop piv N (le_refl N)
+  simp only [List.take_of_length_le (by simp : (List.finRange N).length ≤ N)] at h
+  unfold pivSwap
+  simp only [List.length_ofFn]
+  apply List.ext_getElem
+  · rw [h.1]; simp
+  · intro j h1 h2
+    have hj : j < N := by rw [h.1] at h1; exact h1
+    have := h.2 ⟨j, hj⟩
+    simp only at this
+    rw [List.getD_eq_getElem?_getD, List.getElem?_eq_getElem h1] at this
+    simp only [Option.getD_some] at this
+    rw [this, List.getElem_ofFn]
+    rfl
+
+end AV
